@@ -14,6 +14,7 @@ import DiskfsModel.Proofs.FatTable
 import DiskfsModel.Model.Fat.Fs
 import DiskfsModel.Proofs.FatGeomGen
 import DiskfsModel.Proofs.FatFlatFs
+import DiskfsModel.Proofs.FatTreeStep
 import DiskfsModel.Generated.Fat
 import DiskfsModel.Proofs.FatBoot
 import DiskfsModel.Spec.FatBoot
@@ -289,6 +290,64 @@ theorem onedir_inv_preserved (eqn) (g : FGeom) (fuel : Nat) (s : FState) (op : F
     (hfuel : g.lim - 2 ≤ fuel) (h : FInv eqn g s) :
     Inv g.kind g.lim (fstep eqn g fuel s op).1.m ((fstep eqn g fuel s op).1.files.map (·.chain)) :=
   (fstep_inv he hb hlim hmax hfuel s op h).table
+
+/-! ### the tree of directories keeps its table sound (layer E, Model/Fat/TreeFs.lean) -/
+
+/-- **tree_inv_preserved**: every path-addressed call on the tree model of a volume (mkdir,
+    create, write, truncating open, remove, rename; every one rewrites a parent directory whose
+    chain may grow or shrink), accepted or refused, keeps the cluster map sound with EXACTLY the
+    chains of the tree's files and directories (and the root directory's chain on FAT32) as owners:
+    every chain in range and end-of-chain terminated, no cluster in two chains, no cluster marked
+    used that no file or directory owns. -/
+theorem tree_inv_preserved (eqn) (g : TGeom) (fuel : Nat) (s : DirSt) (op : TOp)
+    (he : EqnOk eqn) (hg : TGeomOk g) (hfuel : g.f.lim - 2 ≤ fuel) (h : TInv eqn g s) :
+    Inv g.f.kind g.f.lim (tstep eqn g fuel s op).1.m
+      (chainOwner (tstep eqn g fuel s op).1.chain ++ kidsOwners (tstep eqn g fuel s op).1.kids) :=
+  (tstep_inv he hg hfuel s op h).table
+
+/-- **tree_inv_history**: the same after every history (induction over the call list) -/
+theorem tree_inv_history (eqn) (g : TGeom) (fuel : Nat) (ops : List TOp) (s : DirSt)
+    (he : EqnOk eqn) (hg : TGeomOk g) (hfuel : g.f.lim - 2 ≤ fuel) (h : TInv eqn g s) :
+    Inv g.f.kind g.f.lim (trun eqn g fuel s ops).m
+      (chainOwner (trun eqn g fuel s ops).chain ++ kidsOwners (trun eqn g fuel s ops).kids) :=
+  (trun_inv he hg hfuel ops s h).table
+
+/-- **tree_no_orphans_no_crosslinks**: spelled out — after every history every cluster of the data
+    area is marked used exactly when it lies in the chain of some file or directory of the tree
+    (no lost clusters), and it lies in at most one place of at most one chain (no cross links) -/
+theorem tree_no_orphans_no_crosslinks (eqn) (g : TGeom) (fuel : Nat) (ops : List TOp) (s : DirSt)
+    (he : EqnOk eqn) (hg : TGeomOk g) (hfuel : g.f.lim - 2 ≤ fuel) (h : TInv eqn g s) :
+    let s' := trun eqn g fuel s ops
+    let owned := (chainOwner s'.chain ++ kidsOwners s'.kids).flatten
+    (∀ c, 2 ≤ c → c < g.f.lim → (s'.m c ≠ 0 ↔ c ∈ owned)) ∧ owned.Nodup := by
+  intro s' owned
+  have := tree_inv_history eqn g fuel ops s he hg hfuel h
+  exact ⟨this.used_iff, this.nodup⟩
+
+/-- **dir_rewrite_sound**: `writeDirectoryEntries` on a directory whose entries now need a
+    different number of clusters grows or shrinks the directory's chain to exactly that number,
+    keeps the cluster map sound with the new chain in place of the old one, keeps a fixed root
+    fixed, and leaves the bytes of every other chain as they were -/
+theorem dir_rewrite_sound (g : TGeom) (fuel : Nat) (m : CMap) (d : Dev) (chain : List Nat) (base : Nat)
+    (ks : List TNode) (img : Bytes) (w : WD) (R : List (List Nat))
+    (hg : TGeomOk g) (hfuel : g.f.lim - 2 ≤ fuel)
+    (h : Inv g.f.kind g.f.lim m (chainOwner chain ++ R))
+    (hw : writeDir g fuel m d chain base ks img = .ok w) :
+    Inv g.f.kind g.f.lim w.m (chainOwner w.chain ++ R) ∧ (w.chain = [] ↔ chain = []) ∧
+    (∀ o ∈ R, chainBytes w.d g.f.io o = chainBytes d g.f.io o) ∧
+    (chain ≠ [] → w.chain.length = dirNeed g base ks) :=
+  writeDir_ok hg hfuel h hw
+
+/-- non-vacuity of the tree theorems' hypotheses -/
+example : EqnOk exEqn ∧ TGeomOk exTGeom ∧ exTGeom.f.lim - 2 ≤ 8 ∧ TInv exEqn exTGeom exTree :=
+  ⟨exEqn_ok, exTGeom_ok, by decide, exTree_inv⟩
+/-- … and of `dir_rewrite_sound`: the directory "B" (chain 3 → 4) rewritten with five entries needs
+    a third cluster and gets cluster 5 -/
+example :
+    (match writeDir exTGeom 8 exTable (fun _ => 0) [3, 4] 2
+        [.file [67] [9] 0, .file [68] [9] 0, .file [69] [9] 0] [] with
+      | .ok w => w.chain
+      | .error _ => []) = [3, 4, 5] := by decide
 
 /-! ### as found -/
 
